@@ -20,6 +20,7 @@ META = {
 
 
 def run(prog, report, tier):
+    meshrules.check_exact_mesh(prog, report)
     meshrules.check_marking(prog, report)
     stale.check_drivers(prog, report,
                         only={'Mesh.dorfler_refine_isotropic',
